@@ -136,6 +136,10 @@ STANDALONE = [
     {'new': 'MediaList', 'kw': {'mediaText': 'all'}},
     {'new': 'MediaQuery', 'kw': {'mediaText': 'screen and (min-width: 10px)'}},
     {'new': 'CSSStyleSheet', 'kw': {}},
+    # a query that starts with an expression / an empty query (mediaType setter: mediaquery.py:228-234)
+    {'new': 'MediaQuery', 'kw': {'mediaText': '(min-width: 10px)'}},
+    {'new': 'MediaQuery', 'kw': {'mediaText': '(min-width: 10px) and (max-width: 20px)'}},
+    {'new': 'MediaQuery', 'kw': {}},
     # objects whose literal names differ from the normalised ones (simple escape, hex escape, upper case)
     {'new': 'Property', 'kw': {'name': 'c\\olor', 'value': 'red'}},
     {'new': 'Property', 'kw': {'name': '\\43 OLOR', 'value': 'RED', 'priority': '!IMPORTANT'}},
